@@ -212,11 +212,58 @@ CHECKS = {
         note="Per-pair tolerances are spec constants; extended-tube moduli at delta = 0; micro-sphere and orthotropic models have no isotropic "
              "closed form and are compared only pairwise.",
         ref="5/C12"),
+    "C09": dict(
+        engine="Patch",
+        technique="TLA+ law module Patch.tla: TLC recomputes the prescribed lattice affine map H X in integers and compares with the displacement "
+                  "the real Newton solver returned at every point, and judges uniformity of F, lateral stress freedom, reaction = P A, view "
+                  "curves and ramp independence of characteristic-curve jobs",
+        text="Displacement patch tests (lattice affine map on the whole boundary, interior points perturbed on the 1/16 lattice) for hex 8/20/27, "
+             "tet 4/10, quad 4/8/9, tri 3/6 in 3D / plane strain: u = H X at every point and F = 1 + H at every quadrature point; uniaxial and "
+             "biaxial characteristic-curve jobs: F uniform, prescribed stretch reached, lateral stress zero (direct material call at the mean "
+             "F), reaction = P11 A0, material-level view curve = same stress, final state independent of the ramp subdivision.",
+        note="Newton tolerance 1e-10; 2^-20 fixed point with 64-96 ulp. Materials: Neo-Hooke (+ Mooney-Rivlin, SVK by AD in thorough); stable "
+             "stretch range <= 1.5.",
+        ref="5/C09"),
+    "C10": dict(
+        engine="Reduced",
+        technique="TLA+ equivalence laws in Reduced.tla: TLC ties the two layers of the extruded slab and compares with the plane-strain body, "
+                  "applies the integer stencil law to the axisymmetric energy, checks second-order approach to the revolved model, and "
+                  "compares condensed vs three-field and uniform vs general results",
+        text="Plane strain = unit-thickness slab with w = 0 (forces and stiffness, entry by entry, out-of-plane forces cancel); axisymmetric "
+             "nodal forces = derivative of Pi = sum 2 pi R W dA; ring sums of the revolved 3D model with 8/16/32 segments approach the "
+             "axisymmetric forces at least 3x per doubling; the nearly-incompressible body converges to the same u, p, J as the three-field "
+             "formulation for several bulk moduli / loads; uniform-grid regions give the same vectors and matrices.",
+        note="Convergence to the revolved model is a finite-refinement law (three levels). Plane strain vs slab for linear cells only.",
+        ref="5/C10"),
+    "C18": dict(
+        engine="Modal",
+        technique="TLA+ law module Modal.tla: TLC forms K v and lambda M v in fixed point from K, M re-assembled by the driver from fresh items "
+                  "and judges every returned eigenpair, extracted modes, frequencies, rigid-mode counts and rigid-motion invariance",
+        text="For free-vibration jobs on hex / tet / quad / quad8 bodies with seeded constants, densities, boundary dictionaries and mode counts: "
+             "K v = lambda M v on the free unknowns, modes vanish on prescribed unknowns and carry the eigenvector elsewhere, (2 pi f)^2 = "
+             "lambda, exactly 3 / 6 zero modes for unconstrained 2D / 3D bodies, spectrum unchanged by a rational rotation + translation, "
+             "extra fields of a mixed container carry no mass.",
+        note="The eigen-solver is not modelled (a-posteriori validation). Fixed point 2^-20 (matrices, modes), 2^-16 (eigenvalues); <= 45 free unknowns.",
+        ref="5/C18"),
+    "C19": dict(
+        engine="Post",
+        technique="TLA+ law module Post.tla: TLC recomputes point means from the mesh incidence, integrals, P F^T, quadrature means and boundary "
+                  "sums and compares with the post-processing routines' results",
+        text="Projection reproduces nodal values of fields of the region's own space (10 region kinds x tensor orders 0-2) and preserves the "
+             "volume integral of arbitrary quadrature values; extrapolation reproduces multilinear fields; shifting to points returns the mean "
+             "over attached cells (recomputed by TLC from the cells array); Kirchhoff = P F^T and Cauchy = P F^T / det F; per-cell view data = "
+             "quadrature means; boundary force and moment = sums over the boundary's points with exact lattice positions.",
+        note="tools.moment on 2D fields raises with the installed numpy and is not a case. Simplex regions are built with the rule the code's own guard names as sufficient.",
+        ref="5/C19"),
 }
 
 NOT_YET = {}
 
 ENGINES = [
+    {"name": "Patch", "path": "spec/Patch.tla", "serves_properties": ["C09"], "kind_free_text": "TLA+ patch-test / characteristic-curve laws"},
+    {"name": "Reduced", "path": "spec/Reduced.tla", "serves_properties": ["C10"], "kind_free_text": "TLA+ equivalence laws between formulations"},
+    {"name": "Modal", "path": "spec/Modal.tla", "serves_properties": ["C18"], "kind_free_text": "TLA+ eigenpair / spectrum laws in fixed point"},
+    {"name": "Post", "path": "spec/Post.tla", "serves_properties": ["C19"], "kind_free_text": "TLA+ projection / post-processing laws"},
     {"name": "Material", "path": "spec/Material.tla", "serves_properties": ["C03", "C11", "C12"],
      "kind_free_text": "TLA+ constitutive laws: stencil derivative, objectivity with rational rotations, agreement, documented initial moduli"},
     {"name": "Items", "path": "spec/Items.tla", "serves_properties": ["C01", "C14"],
